@@ -23,7 +23,7 @@ META = {
                    "alone — C09's obligations on its search (every pragma directive is a candidate wherever it stands, the search ends early only at a directive named "
                    "solidity) are inherited.",
     "assumptions": ["items do not mention each other's state-variable names (property quantifier)", "C01: a search rooted at an item stays inside it"],
-    "floors": {"R19.scope": 25, "R19.iso.loop": 40, "R19.version": 1, "R19.lines": 1},
+    "floors": {"R19.scope": 25, "R19.iso.loop": 40, "R19.version": 1, "R19.lines": 1, "R19.iso.globals": 1},
 }
 
 EXCLUDED = ("SafeMathPre080", "SafeMathPost080")
@@ -176,5 +176,9 @@ def run(ctx, crate):
     # sorted offsets, a cursor into the file) lets a finding in one item decide what is reported for another (C02's obligations on the conversion)
     obs.append(depend.inherited(ctx, crate, "R19.lines", "analyze_for_* x3", "every location is converted to its line on its own, by counting the line feeds before it (C02's obligations on the line lookup)", "C02",
                                 lambda o: o.rule in ("R02.plumb", "R02.canon", "R02.range"), example="`a / b * c * d` (two findings starting at the same byte) in an earlier item"))
+    # state that outlives a call (a static, a thread-local counter or cache) is a channel between items like any carried local: what an earlier item left in it
+    # decides how a later item is searched (C15's obligations on shared state)
+    obs.append(depend.inherited(ctx, crate, "R19.iso.globals", "analysis code", "no state outlives the analysis of an item (C15's obligations on statics and effects)", "C15",
+                                lambda o: o.rule in ("R15.globals", "R15.effects"), example="a depth counter in a thread-local that is not restored on an early return: a deeply nested item cuts short the search of every later one"))
     ctx.analysed.setdefault("C19", {})[crate.ctype] = {"detectors": n_det}
     return obs
